@@ -1,8 +1,12 @@
 package p64
 
 import (
+	"bytes"
 	"encoding/binary"
+	"fmt"
 	"testing"
+
+	"github.com/RoaringBitmap/roaring/v2/roaring64"
 
 	"verifharness/inst"
 	"verifharness/model"
@@ -50,6 +54,216 @@ func FuzzDecode64(f *testing.F) {
 			}
 		}); p != nil {
 			t.Fatalf("%s panicked on %d bytes: %v [%s]", e64[e], len(data), p, st)
+		}
+	})
+}
+
+// ---- coverage-guided operation scripts over two 64-bit bitmaps (thorough tier of C17) ----
+
+var fz64Buckets = []uint64{0, 1, 2, 0x7FFFFFFF, 0x80000000, 0xFFFFFFFE, 0xFFFFFFFF, 3}
+var fz64Keys = []uint64{0, 1, 0x8000, 0xFFFF}
+var fz64Lens = []uint64{1, 2, 64, 65, 4096, 4097, 65535, 65536, 65537, 200000, 1 << 20}
+
+type fz64Reader struct {
+	d []byte
+	i int
+}
+
+func (r *fz64Reader) more() bool { return r.i < len(r.d) }
+func (r *fz64Reader) u8() uint64 {
+	if r.i >= len(r.d) {
+		return 0
+	}
+	v := r.d[r.i]
+	r.i++
+	return uint64(v)
+}
+func (r *fz64Reader) value() uint64 {
+	sel := r.u8()
+	hi := fz64Buckets[sel%uint64(len(fz64Buckets))]
+	k := fz64Keys[(sel>>3)%uint64(len(fz64Keys))]
+	lo := r.u8()<<8 | r.u8()
+	return hi<<32 | k<<16 | lo
+}
+func (r *fz64Reader) span() (uint64, uint64) {
+	s := r.value()
+	l := fz64Lens[r.u8()%uint64(len(fz64Lens))]
+	e := s + l
+	if e < s {
+		e = model.Max64
+	}
+	return s, e
+}
+
+func fuzzOps64(data []byte) string {
+	r := &fz64Reader{d: data}
+	b := [2]*roaring64.Bitmap{roaring64.New(), roaring64.New()}
+	m := [2]*model.Set{model.New(), model.New()}
+	var hist []string
+	logf := func(f string, a ...interface{}) { hist = append(hist, fmt.Sprintf(f, a...)) }
+	bad := func(f string, a ...interface{}) string {
+		h := hist
+		if len(h) > 70 {
+			h = h[len(h)-70:]
+		}
+		return fmt.Sprintf("%s\n  history(%d steps): %v", fmt.Sprintf(f, a...), len(hist), h)
+	}
+	for steps := 0; r.more() && steps < 64; steps++ {
+		op := r.u8()
+		i := int(op>>7) & 1
+		x, mx := b[i], m[i]
+		switch (op & 0x7F) % 18 {
+		case 0:
+			v := r.value()
+			logf("b%d.Add(%d)", i, v)
+			x.Add(v)
+			mx.Add(v)
+		case 1:
+			v := r.value()
+			logf("b%d.Remove(%d)", i, v)
+			x.Remove(v)
+			mx.Remove(v)
+		case 2:
+			v := r.value()
+			logf("b%d.CheckedAdd(%d)", i, v)
+			want := !mx.Contains(v)
+			if got := x.CheckedAdd(v); got != want {
+				return bad("CheckedAdd(%d)=%v, membership changed=%v", v, got, want)
+			}
+			mx.Add(v)
+		case 3:
+			v := r.value()
+			logf("b%d.CheckedRemove(%d)", i, v)
+			want := mx.Contains(v)
+			if got := x.CheckedRemove(v); got != want {
+				return bad("CheckedRemove(%d)=%v, membership changed=%v", v, got, want)
+			}
+			mx.Remove(v)
+		case 4:
+			s, e := r.span()
+			logf("b%d.AddRange(%d,%d)", i, s, e)
+			x.AddRange(s, e)
+			if e > s {
+				mx.AddRange(s, e-1)
+			}
+		case 5:
+			s, e := r.span()
+			logf("b%d.RemoveRange(%d,%d)", i, s, e)
+			x.RemoveRange(s, e)
+			if e > s {
+				mx.RemoveRange(s, e-1)
+			}
+		case 6:
+			s, e := r.span()
+			logf("b%d.Flip(%d,%d)", i, s, e)
+			x.Flip(s, e)
+			if e > s {
+				mx.FlipRange(s, e-1)
+			}
+		case 7:
+			logf("b%d.RunOptimize()", i)
+			x.RunOptimize()
+		case 8:
+			logf("b%d=b%d.Clone()", 1-i, i)
+			b[1-i] = x.Clone()
+			m[1-i] = mx.Clone()
+		case 9:
+			on := r.u8()&1 == 1
+			logf("b%d.SetCopyOnWrite(%v)", i, on)
+			x.SetCopyOnWrite(on)
+		case 10:
+			v := r.value()
+			stride := r.u8()%9 + 1
+			n := (r.u8()<<8 | r.u8()) % 5000
+			vals := make([]uint64, 0, n)
+			for k, w := uint64(0), v; k < n && w >= v; k, w = k+1, w+stride {
+				vals = append(vals, w)
+			}
+			logf("b%d.AddMany(%d values from %d step %d)", i, len(vals), v, stride)
+			x.AddMany(vals)
+			for _, w := range vals {
+				mx.Add(w)
+			}
+		case 11, 12, 13, 14:
+			o := int((op&0x7F)%18) - 11
+			logf("b%d.%s(b%d)", i, opName64[o], 1-i)
+			nm := mop(o, mx, m[1-i])
+			iop(o, x, b[1-i])
+			m[i] = nm
+		case 15:
+			o := int(r.u8() % 4)
+			logf("b%d=%s(b%d,b%d)", i, opName64[o], i, 1-i)
+			b[i] = sop(o, x, b[1-i])
+			m[i] = mop(o, mx, m[1-i])
+		case 16:
+			s, e := r.span()
+			logf("b%d=Flip(b%d,%d,%d)", i, i, s, e)
+			b[i] = roaring64.Flip(x, s, e)
+			if e > s {
+				mx.FlipRange(s, e-1)
+			}
+		case 17:
+			by, err := x.ToBytes()
+			if err != nil {
+				return bad("ToBytes: %v", err)
+			}
+			nb := roaring64.New()
+			if _, err := nb.ReadFrom(bytes.NewReader(by)); err != nil {
+				return bad("ReadFrom(ToBytes): %v", err)
+			}
+			logf("b%d=ReadFrom(ToBytes(b%d))", i, i)
+			b[i] = nb
+		}
+		for j := 0; j < 2; j++ {
+			if c := b[j].GetCardinality(); c != m[j].Card() {
+				return bad("b%d: GetCardinality=%d, the replayed set has %d", j, c, m[j].Card())
+			}
+		}
+	}
+	for j := 0; j < 2; j++ {
+		if d := check64(b[j], m[j]); d != "" {
+			return bad("b%d differs from the replay of its history: %s", j, d)
+		}
+		if !m[j].IsEmpty() {
+			lo, _ := m[j].Select(0)
+			hi, _ := m[j].Select(m[j].Card() - 1)
+			if g := b[j].Minimum(); g != lo {
+				return bad("b%d.Minimum=%d want %d", j, g, lo)
+			}
+			if g := b[j].Maximum(); g != hi {
+				return bad("b%d.Maximum=%d want %d", j, g, hi)
+			}
+			if g := b[j].Rank(hi); g != m[j].Card() {
+				return bad("b%d.Rank(max)=%d want %d", j, g, m[j].Card())
+			}
+			mid := m[j].Card() / 2
+			w, _ := m[j].Select(mid)
+			if g, err := b[j].Select(mid); err != nil || g != w {
+				return bad("b%d.Select(%d)=(%d,%v) want %d", j, mid, g, err, w)
+			}
+		}
+	}
+	return ""
+}
+
+var opName64 = []string{"And", "Or", "Xor", "AndNot"}
+
+// FuzzOps64 is the coverage-guided target of C17 (thorough tier).
+func FuzzOps64(f *testing.F) {
+	f.Add([]byte{})
+	f.Add([]byte{4, 0, 0, 0, 7, 7, 5, 0, 0, 10, 3})
+	f.Add([]byte{4, 6 | 3<<3, 0xFF, 0xF0, 5, 8, 6, 7, 0xFF, 0xFF, 0, 0x80 | 0, 1, 0, 1, 12})
+	f.Add([]byte{10, 1, 0, 0, 1, 0x10, 0x00, 7, 0x80 | 4, 1, 0, 0x80, 9, 11, 0x80 | 13, 15, 2, 17})
+	f.Fuzz(func(t *testing.T, data []byte) {
+		if len(data) > 1024 {
+			return
+		}
+		var msg string
+		if p, st := inst.Try(func() { msg = fuzzOps64(data) }); p != nil {
+			t.Fatalf("C17: panic inside the documented domain: %v [%s] script=%x", p, st, data)
+		}
+		if msg != "" {
+			t.Fatalf("C17: %s", msg)
 		}
 	})
 }
